@@ -1282,6 +1282,19 @@ func (vfs *MemFS) rename(oldpath, newpath string) (retry bool, err error) {
 		return false, vfs.err.InvalidArgument
 	}
 
+	// Moving a directory to another directory modifies the directory itself (its ".." entry).
+	// Its permission is read before the two directories are locked, never while they are held :
+	// the directory moved by this call may be the locked new directory of another Rename,
+	// which in turn waits for the one locked here.
+	oDirWritable := true
+
+	if d, ok := oChild.(*dirNode); ok && nChild == nil && nParent != oParent {
+		verifYield(&d.mu, false)
+		d.mu.RLock()
+		oDirWritable = d.checkPermission(avfs.OpenWrite, vfs.User())
+		d.mu.RUnlock()
+	}
+
 	// Both directories are locked, an ancestor before its descendants and
 	// unrelated directories always in the same order, whatever the direction of the move.
 	first, second := oParent, nParent
@@ -1333,7 +1346,7 @@ func (vfs *MemFS) rename(oldpath, newpath string) (retry bool, err error) {
 		return false, vfs.err.PermDenied
 	}
 
-	oDir, oIsDir := oChild.(*dirNode)
+	_, oIsDir := oChild.(*dirNode)
 
 	if oPI.Path() == nPI.Path() {
 		if oIsDir && vfs.Clean(oldpath) == vfs.Clean(newpath) && vfs.OSType() != avfs.OsWindows {
@@ -1351,16 +1364,8 @@ func (vfs *MemFS) rename(oldpath, newpath string) (retry bool, err error) {
 		return false, vfs.err.InvalidArgument
 	}
 
-	if nChild == nil && oIsDir && nParent != oParent {
-		// Moving a directory to another directory modifies the directory itself (its ".." entry).
-		verifYield(&oDir.mu, false)
-		oDir.mu.RLock()
-		ok := oDir.checkPermission(avfs.OpenWrite, vfs.User())
-		oDir.mu.RUnlock()
-
-		if !ok {
-			return false, vfs.err.PermDenied
-		}
+	if nChild == nil && oIsDir && nParent != oParent && !oDirWritable {
+		return false, vfs.err.PermDenied
 	}
 
 	switch nChild.(type) {
